@@ -36,7 +36,6 @@ package vgirpc
 //@     typeof(err) == *SessionLostError || typeof(err) == *ServerDrainingError || typeof(err) == *ProtocolVersionError || typeof(err) == *externalCapError
 //@ func buildErrorExtra
 //@   property C05
-//@   requires err != nil
 //@   at call json.Marshal assert [rpcerror] typeof(err) == *RpcError ==> extra.ExceptionType == as(err, "*RpcError").Type
 //@   at call json.Marshal assert [typed] (typeof(err) == *MethodNotImplementedError ==> extra.ExceptionType == "AttributeError") &&
 //@       (typeof(err) == *SessionLostError ==> extra.ExceptionType == "SessionLostError") &&
